@@ -271,6 +271,93 @@ pub fn run(tier: Tier, shard: Shard, stats: &mut Stats) {
         }
     }
     }
+    // two wide elements on two template lines: each line is laid out with its own element
+    {
+        let catcher = LineCatcher::new(12);
+        for (tpl, want) in [
+            ("{wide_msg:>}|\n{wide_msg}|", vec!["ghijklmnopq|", "abcdefghijk|"]),
+            ("{wide_msg}|\n{wide_msg:>}|", vec!["abcdefghijk|", "ghijklmnopq|"]),
+            ("{wide_bar}|\n{wide_msg}|", vec!["###>-------|", "abcdefghijk|"]),
+            ("{wide_msg:^}|\n{wide_bar}|", vec!["defghijklmn|", "###>-------|"]),
+        ] {
+            case += 1;
+            if !shard.owns(case) {
+                continue;
+            }
+            stats.evaluations += 1;
+            stats.transitions += 1;
+            let hist = vec![tpl.to_string(), "terminal width 12".to_string(), "message abcdefghijklmnopq, position 3 of 9".to_string()];
+            let r = catch(|| {
+                let pb = bar_on(&catcher, Some(9), ProgressStyle::with_template(tpl).unwrap().progress_chars("#>-")).with_message("abcdefghijklmnopq").with_position(3);
+                let l = frame_lines(&catcher, &pb);
+                pb.abandon();
+                l
+            });
+            match r {
+                Err(p) => stats.violation(Violation { class: format!("panic: {}", panic_class(&p)), config: "two wide elements".into(), history: hist, detail: p }),
+                Ok(lines) => {
+                    if lines != want {
+                        stats.violation(Violation { class: "wide: a wide element on one template line is laid out with the kind or alignment of the one on another line".into(), config: "two wide elements".into(), history: hist, detail: format!("rendered {:?}, expected {:?}", lines, want) });
+                    } else {
+                        stats.state(hash_of(&("two-wide", tpl)), true);
+                    }
+                }
+            }
+        }
+    }
+    // {spinner:W} with tick strings of unequal width: the field is W columns, padded on the chosen side
+    {
+        let catcher = LineCatcher::new(40);
+        for w in [0usize, 2, 3, 6, 7] {
+            for (align, a) in [('<', "<"), ('^', "^"), ('>', ">")] {
+                for ticks in [0u64, 1, 2] {
+                    case += 1;
+                    if !shard.owns(case) {
+                        continue;
+                    }
+                    stats.evaluations += 1;
+                    stats.transitions += 1;
+                    let tpl = format!("[{{spinner:{a}{w}}}]");
+                    let frames = ["..", "....", "o", "done"];
+                    let hist = vec![tpl.clone(), format!("tick_strings {:?}, {ticks} ticks", frames)];
+                    let r = catch(|| {
+                        let pb = bar_on(&catcher, Some(9), ProgressStyle::with_template(&tpl).unwrap().tick_strings(&frames));
+                        for _ in 0..ticks {
+                            pb.tick();
+                        }
+                        let l = frame_lines(&catcher, &pb);
+                        pb.abandon();
+                        l
+                    });
+                    match r {
+                        Err(p) => stats.violation(Violation { class: format!("panic: {}", panic_class(&p)), config: "spinner".into(), history: hist, detail: p }),
+                        Ok(lines) => {
+                            let content = frames[(ticks % 3) as usize];
+                            let n = content.len();
+                            let field = if n >= w {
+                                content.to_string()
+                            } else {
+                                let d = w - n;
+                                match align {
+                                    '<' => format!("{content}{}", " ".repeat(d)),
+                                    '>' => format!("{}{content}", " ".repeat(d)),
+                                    _ => format!("{}{content}{}", " ".repeat(d / 2), " ".repeat(d - d / 2)),
+                                }
+                            };
+                            let want = format!("[{field}]");
+                            let alt = if align == '^' && n < w { let d = w - n; format!("[{}{content}{}]", " ".repeat(d - d / 2), " ".repeat(d / 2)) } else { want.clone() };
+                            let line = lines.first().cloned().unwrap_or_default();
+                            if line != want && line != alt {
+                                stats.violation(Violation { class: "pad: a {spinner} field with a width is not exactly that many columns / padded on the wrong side".into(), config: "spinner".into(), history: hist, detail: format!("rendered {:?}, expected {:?}", line, want) });
+                            } else {
+                                stats.state(hash_of(&("spinner", w, align, ticks)), true);
+                            }
+                        }
+                    }
+                }
+            }
+        }
+    }
     // a tab in the content and a tab width that changes between two draws: the field is laid out with
     // the width the text has under the *current* tab width
     {
